@@ -553,6 +553,10 @@ class RoiSubsetStateNd(SubsetState):
     def move_to(self, *args):
         self._roi.move_to(*args)
 
+    def copy(self):
+        return RoiSubsetStateNd(atts=list(self._atts), roi=self.roi,
+                                pretransform=self.pretransform)
+
     @contract(data='isinstance(Data)', view='array_view')
     def to_mask(self, data, view=None):
 
